@@ -13,7 +13,7 @@ SETEXT_OR_DELIM_ROW = re.compile(r'^ {0,3}[|: \t=-]*[=-][|: \t=-]*$')  # 4.3 und
 HR = re.compile(r'^ {0,3}([-_*])(?:[ \t]*\1){2,}[ \t]*$')            # 4.1
 FENCE = re.compile(r'^ {0,3}(?:`{3,}|~{3,})')                        # 4.5
 BULLET = re.compile(r'^ {0,3}[-+*](?:[ \t]+(\S)?|$)')                # 5.2
-ORDERED = re.compile(r'^ {0,3}(\d{1,9})[.)](?:[ \t]+(\S)?|$)')       # 5.2
+ORDERED = re.compile(r'^ {0,3}([0-9]{1,9})[.)](?:[ \t]+(\S)?|$)')    # 5.2 (ASCII digits)
 QUOTE = re.compile(r'^ {0,3}>')                                      # 5.1
 HTML = re.compile(r'^ {0,3}<')                                       # 4.6 (over-approx.: any line starting with <)
 CODE = re.compile(r'^(?: {4}| {0,3}\t)')                             # 4.4
